@@ -38,11 +38,32 @@ import (
 )
 
 const (
-	// a wait that only ends this way means "not served": four orders of magnitude
-	// above the loopback latency of a served request
-	serveBound = 12 * time.Second
-	ioBound    = 15 * time.Second
+	// a wait that only ends this way means "not served": four to five orders of
+	// magnitude above the loopback latency of a served request, so that a machine
+	// that is merely slow (load average in the hundreds) cannot turn into a verdict
+	serveBound = 90 * time.Second
+	ioBound    = 120 * time.Second
+	// machinery set-up (a stream's HLS playlist appearing, a closed publisher's
+	// stream leaving the registry): failing these is a harness problem, never a
+	// finding — they get minutes
+	setupBound = 5 * time.Minute
 )
+
+// pace is the pause after the i-th round of feeding while something is awaited:
+// the first rounds are quick, later ones slow down so that a slow machine is not
+// flooded with frames it has not converted yet.
+func pace(i int) {
+	switch {
+	case i <= 8:
+		time.Sleep(50 * time.Microsecond)
+	case i <= 200:
+		time.Sleep(300 * time.Microsecond)
+	case i <= 1000:
+		time.Sleep(2 * time.Millisecond)
+	default:
+		time.Sleep(20 * time.Millisecond)
+	}
+}
 
 var sdpAV = mediah.SDP(esgen.H264, true)
 
@@ -214,21 +235,34 @@ func (sh *shard) restore(t evid.TB, path string) {
 	sh.mu.Lock()
 	sh.streams[path] = st
 	sh.mu.Unlock()
-	ok := false
-	for i := 0; i < 4000 && !ok; i++ {
-		sh.pumpOne(path)
+	// The playlist needs three finished segments, i.e. four GOPs, and is produced
+	// by the stream's demuxer and muxer goroutines some time after the frames were
+	// handed over. Publishing is paced to them: one GOP, then a wait for the
+	// playlist that grows with every round; the only bound is wall time.
+	playlist := func() bool {
 		if h := st.Hlsable(); h != nil {
-			if _, err := h.M3u8(""); err == nil {
-				ok = true
-				break
-			}
+			_, err := h.M3u8("")
+			return err == nil
 		}
-		if i > 12 {
-			time.Sleep(500 * time.Microsecond)
-		}
+		return false
 	}
-	if !ok {
-		t.Fatalf("machinery: the HLS playlist of %s did not appear after 4000 frames", path)
+	deadline := time.Now().Add(setupBound)
+	for i := 0; ; i++ {
+		sh.pumpOne(path)
+		sh.pumpOne(path)
+		wait := time.Duration(1+i/3) * 2 * time.Millisecond
+		if i < 4 {
+			wait = 200 * time.Microsecond
+		}
+		if wait > 500*time.Millisecond {
+			wait = 500 * time.Millisecond
+		}
+		if srv.WaitFor(wait, playlist) {
+			break
+		}
+		if time.Now().After(deadline) {
+			t.Fatalf("machinery: the HLS playlist of %s did not appear within %v (%d GOPs published, stream registered: %v, server log tail:\n%s)", path, setupBound, i+1, media.Get(path) == st, tail(sh.s.Logs(), 3000))
+		}
 	}
 }
 
@@ -363,9 +397,7 @@ func (sh *shard) awaitMedia(r *streamRead) []byte {
 			return b
 		}
 		sh.pump()
-		if i > 8 {
-			time.Sleep(300 * time.Microsecond)
-		}
+		pace(i)
 	}
 }
 
@@ -384,11 +416,7 @@ func (sh *shard) pumpUntil(done <-chan struct{}) bool {
 		if i > 0 { // the first look is free: refusals answer without any media
 			sh.pump()
 		}
-		if i > 8 {
-			time.Sleep(300 * time.Microsecond)
-		} else {
-			time.Sleep(50 * time.Microsecond)
-		}
+		pace(i)
 	}
 }
 
@@ -522,16 +550,21 @@ func (sh *shard) hlsPlaylist(path string, cred httpCred) (obs, []string) {
 // segmentURIs asks the stream itself (not the HTTP side) which segments its
 // playlist currently lists: "/streams{path}/{seq}.ts".
 func (sh *shard) segmentURIs(path string) []string {
-	st := media.Get(path)
-	if st == nil || st.Hlsable() == nil {
-		return nil
+	// a stream that was just (re)published lists nothing until its converters have
+	// finished three segments: wait for that state instead of reporting "none"
+	deadline := time.Now().Add(serveBound)
+	for {
+		if st := media.Get(path); st != nil && st.Hlsable() != nil {
+			if b, err := st.Hlsable().M3u8(""); err == nil {
+				u, _ := playlistURIs(b)
+				return u
+			}
+		}
+		if time.Now().After(deadline) {
+			return nil
+		}
+		time.Sleep(time.Millisecond)
 	}
-	b, err := st.Hlsable().M3u8("")
-	if err != nil {
-		return nil
-	}
-	u, _ := playlistURIs(b)
-	return u
 }
 
 // hlsSegmentNow requests a segment the stream lists right now (age 0 = newest).
@@ -544,7 +577,12 @@ func (sh *shard) hlsSegmentNow(path string, age int, cred httpCred) (obs, string
 	for {
 		uris := sh.segmentURIs(path)
 		if len(uris) == 0 {
-			return obs{Note: "machinery: no segments listed"}, ""
+			// the stream was just (re)published by somebody: its playlist is on the way
+			if time.Now().After(deadline) {
+				return obs{Note: "machinery: no segments listed"}, ""
+			}
+			time.Sleep(time.Millisecond)
+			continue
 		}
 		i := len(uris) - 1 - age
 		if i < 0 {
@@ -839,7 +877,7 @@ func (sh *shard) settle(t evid.TB, path string) {
 			isLive = true
 		}
 	}
-	if !srv.WaitFor(serveBound, func() bool { st := media.Get(path); return st == nil || st == own }) {
+	if !srv.WaitFor(setupBound, func() bool { st := media.Get(path); return st == nil || st == own }) {
 		t.Fatalf("machinery: the stream a closed publisher left on %s is still registered", path)
 	}
 	if isLive {
